@@ -462,6 +462,3 @@ def m_vec_retain(c, p, f):
     return unit()
 
 
-@model(r'^(?:\w+::)*slice::<impl \[.*\]>::(sort_by|sort_by_key|sort_unstable_by)::<')
-def m_sort_by(c, p, f):
-    raise Inconclusive("sort_by on the explored path (load-balancing by outstanding connections / error counts is outside the claim)")
